@@ -123,6 +123,13 @@ class Canon:
                 c = _callee(n)
                 if c and self.inlinable(c) is not None:
                     self.run_fn(self.fns[c], stack + (p,))
+            # a closure whose whole body is a helper call: give it a block so the helper's statements can be spliced
+            for n in list(_walk(body)):
+                if n.get("k") == "Closure" and isinstance(n.get("body"), dict):
+                    cb = n["body"]
+                    call, hf = self._target(cb)
+                    if hf is not None and _strip(cb) is cb:
+                        n["body"] = {"k": "Block", "stmts": [], "expr": cb, "id": self._id(), "ty": cb.get("ty"), "sp": list(cb.get("sp") or [0, 0, 0, 0])}
             if body.get("k") == "Block":
                 self.inline_block(body, f)
                 for n in list(_walk(body)):
@@ -130,6 +137,7 @@ class Canon:
                         self.inline_block(n, f)
                 self.inline_exprs(body, f)
             self.assign_forms(body)
+            self.collect_loops(body)
             self.iter_loops(body)
         self.done.add(p)
 
@@ -176,10 +184,11 @@ class Canon:
                 r = n["l"]
                 if r.get("k") == "Local":
                     muts.add(r["v"])
+        expr_only = not f["body"].get("stmts") and not any(str(t).startswith("&mut") for t in f.get("inputs", []))
         for prm, arg in zip(params, args):
             uses = [n for n in _walk(body) if n.get("k") == "Local" and n.get("v") == prm["v"]]
             a = arg
-            alias = (not prm.get("mut")) and prm["v"] not in muts and self._aliasable(a)
+            alias = (not prm.get("mut")) and prm["v"] not in muts and (self._aliasable(a) or (expr_only and self._pure(a)))
             if alias:
                 parents = {}
                 for x in _walk(body):
@@ -218,6 +227,25 @@ class Canon:
         self.stats["inlined_calls"] += 1
         self.inlined_calls[f["path"]] = self.inlined_calls.get(f["path"], 0) + 1
         return prelude, body.get("stmts", []), body.get("expr")
+
+    @staticmethod
+    def _pure(a):
+        """Side-effect free argument expression (arithmetic over locals, fields, literals, element reads, len/clone):
+        for a read-only single-expression callee, evaluating it at the parameter's use is the same as at the call."""
+        for n in _walk(a):
+            k = n.get("k")
+            if k in ("Lit", "Local", "Field", "Unary", "Cast", "Tup", "AddrOf", "Index", "Bind"):
+                if k == "AddrOf" and n.get("mut"):
+                    return False
+                continue
+            if k == "Binary" and n.get("op") not in ("&&", "||"):
+                continue
+            if k == "Block" and not n.get("stmts") and n.get("expr") is not None and not n.get("m"):
+                continue
+            if k == "MethodCall" and not n.get("args") and n.get("name") in ("len", "size", "rows", "cols", "clone"):
+                continue
+            return False
+        return True
 
     @staticmethod
     def _aliasable(a):
@@ -484,6 +512,58 @@ class Canon:
             n["r"] = rhs
             n["canon"] = "x = x op e"
             self.stats["assign_forms"] += 1
+
+    # ------------------------------------------------------------------ P4
+    def collect_loops(self, body):
+        """`let v = SRC.map(|p| e).collect();` (v a Vec)  ->  `let mut v = Vec::new(); for p in SRC { v.push(e) }`
+        (the for loop is then rewritten by P3).  Only as the initialiser of a plain `let`."""
+        for blk in [n for n in _walk(body) if n.get("k") == "Block"]:
+            out = []
+            changed = False
+            for st in blk.get("stmts", []):
+                out.append(st)
+                if st.get("k") != "Let" or st.get("init") is None or st["pat"].get("k") != "Bind":
+                    continue
+                c = _strip(st["init"])
+                if c.get("k") != "MethodCall" or c.get("name") != "collect" or c.get("args"):
+                    continue
+                if not str(c.get("ty", "")).startswith("std::vec::Vec<"):
+                    continue
+                m = _strip(c["recv"])
+                if m.get("k") != "MethodCall" or m.get("name") != "map" or len(m.get("args", [])) != 1 or m.get("fn") != "std::iter::Iterator::map":
+                    continue
+                cl = _strip(m["args"][0])
+                if cl.get("k") != "Closure" or len(cl.get("params", [])) != 1:
+                    continue
+                if any(n.get("k") in ("Ret", "Try") for n in _walk(cl["body"])):
+                    continue
+                src = m["recv"]
+                sp = st.get("sp") or [0, 0, 0, 0]
+                csp = c.get("sp") or sp
+                v = st["pat"]["v"]
+                vty = st["pat"].get("ty", c.get("ty"))
+                push = {"k": "MethodCall", "name": "push", "fn": "std::vec::Vec<T, A>::push", "impl": "std::vec::Vec<T, A>::push", "fn_local": False,
+                        "recv": {"k": "Local", "v": v, "name": st["pat"].get("name"), "id": self._id(), "adj": "&mut " + str(vty), "ty": vty, "sp": list(cl["body"].get("sp") or csp)},
+                        "args": [cl["body"]], "id": self._id(), "ty": "()", "sp": list(cl["body"].get("sp") or csp)}
+                loop = {"k": "For", "pat": cl["params"][0], "iter": src,
+                        "body": {"k": "Block", "stmts": [{"k": "Semi", "e": push, "sp": list(push["sp"])}], "id": self._id(), "ty": "()", "sp": list(cl.get("sp") or csp)},
+                        "id": self._id(), "ty": "()", "sp": [csp[0], csp[1] + 0.0005, csp[2], csp[3]], "canon": "collect-loop"}
+                # is the source something P3 can turn into an index loop?  (otherwise leave the statement alone)
+                probe = copy.deepcopy(loop)
+                before = self.stats["iterator_loops"]
+                self._iter_loop(probe)
+                ok = self.stats["iterator_loops"] > before
+                self.stats["iterator_loops"] = before
+                if not ok:
+                    continue
+                st["pat"] = dict(st["pat"], mut=True)
+                st["init"] = {"k": "Call", "f": {"k": "Def", "dk": "AssocFn", "fn": "std::vec::Vec<T>::new", "fn_local": False, "id": self._id(), "ty": "fn", "sp": list(csp)},
+                              "args": [], "id": self._id(), "ty": vty, "sp": list(csp)}
+                st["sp"] = [sp[0], sp[1], csp[0], csp[1] + 0.0002]
+                out.append({"k": "Expr", "e": loop, "sp": list(loop["sp"])})
+                changed = True
+            if changed:
+                blk["stmts"] = out
 
     # ------------------------------------------------------------------ P3
     def iter_loops(self, body):
